@@ -78,7 +78,7 @@ func main() {
 		},
 		Budget: func(run *core.Run) time.Duration {
 			if run.Quick() {
-				return 60 * time.Second
+				return 180 * time.Second
 			}
 			return 12 * time.Minute
 		},
